@@ -17,10 +17,10 @@ import (
 
 // Ctx is what a rule set sees.
 type Ctx struct {
-	P    *load.Program
-	S    *report.Set
-	Tier string
-	Arch string // "" amd64
+	P     *load.Program
+	S     *report.Set
+	Tier  string
+	Arch  string // "" amd64
 	Tests bool
 }
 
